@@ -52,6 +52,14 @@ CLAIMS = {
    text="Deductive proof: (count) every handler ensures exactly one final reply per command (one per accepted recipient for LMTP DATA / BDAT LAST, plus the closing 500 when the error threshold is passed, or a failed read), counted by ghost counters maintained by writeResponse; (shape) writeResponse requires, at EVERY real call site, a reply code in 200..599, an enhanced code of the same class (or unset/absent only for greeting, EHLO, 3xx) and reply text free of C0 controls other than HT/LF and of DEL (character-class predicate, closed under concatenation/Sprintf); (attribution) the value written after DATA/BDAT is the result of this call's callback / received from this transfer's result channel (call-site and receive-site obligations). Seven echo sites fail the text clause: recorded as known findings with their witnesses.",
    note=COMMON_NOTE + "Assumed: backend SMTPError values carry a 4xx/5xx code, an enhanced code of the same class and clean text; error texts and mechanism names supplied by the backend are clean; Server.Domain is clean. Not decided: reply order under segmentation below bufio (inherited from the ReadLine stub); the stale-result race of the BDAT goroutine (C20).",
    design="3.C04", technique=T + "; call-site preconditions on the single reply writer"),
+ "C11": dict(
+   text="Deductive proof of the flow and refusal halves: at the real Session.Mail / Session.Rcpt call sites the mailbox is the value returned by the path parser for this line (and the parser and the parameter splitter reported no error), the options object is new, and every option field equals the decoded value of the parameter present on the line or is zero when the parameter is absent (SIZE, SMTPUTF8, REQUIRETLS, BODY, RET, ENVID, AUTH presence, NOTIFY element by element, ORCPT type and address, RRVS time), only known parameters were present, each present parameter was well-formed (SIZE numeric, BODY/RET from the fixed sets, ENVID/ORCPT xtext decodable and printable, NOTIFY from the four keywords, none twice, NEVER alone) - loop invariants over the Go map iteration (visited-set ghost), checked for every path through the parameter switches; refusals are 5xx (4xx only for the recipient limit) with unchanged callback counters (shared with C03); parameters of disabled extensions are refused (shared with C12). decodeTypedAddress and checkNotifySet are proved against specifications written from RFC 3461 4.1/4.2.",
+   note=COMMON_NOTE + "NOT decided by this check (so a change there is not noticed): agreement of the hand-written path parser (parsePath / parseMailbox / parseLocalPart), of parseArgs and of the regexp-driven decoders decodeXtext / decodeUTF8AddrXtext with the RFC grammars - they are treated as functions of their argument (the parser functions are under the no-panic sweep only); the value of AUTH=<mailbox> other than <>; time.Parse as RFC 3339 reference. The property's quantifier (grammar-derived lines against a reference grammar) is therefore only half covered.",
+   design="3.C11", technique=T + "; loop invariants over map iteration with a visited-set ghost"),
+ "C20": dict(
+   text="(a) Ownership obligations, one per access, discharged by the generator's must-hold lockset dataflow over go/ssa (not SMT): Server.listeners/conns only under Server.locker, Conn.closed only under Conn.locker, and the transaction fields dataResult, bdatStatus, recipients, fromReceived, bytesReceived, errCount, binarymime, didAuth, text, lineLimitReader touched only by code that is not reachable from any goroutine other than the command loop (closures started with go, Server.Close, Server.Shutdown are the other thread roots) - a sufficient condition for the absence of data races on those fields. (b) Deductive proof of the sequential kernel: a second Close/Shutdown returns ErrServerClosed, the first one closes the done channel, Close closes every registered connection whatever the listeners return (loop invariant over the map iteration), Serve never returns a temporary Accept error and its back-off stays within [0, 1s] (so no overflow after any run of temporary errors); the BDAT/LMTP delivery goroutines use the values captured at start (call-site and receive-site obligations shared with C04/C13).",
+   note=COMMON_NOTE + "NOT decided (honest limits of sequential contracts): deadlock freedom, goroutine leaks, that Shutdown waits for the connections and honours its context, that Close makes a blocked Accept return (listener behaviour), races on fields that have no ownership declaration (session, bdatPipe, helo, conn: guarded in some places and command-loop-owned in others on the unchanged tree, so no uniform rule verifies), atomicity of compound operations under the locks, races inside backend callbacks.",
+   design="3.C20", technique=T + "; ownership conditions discharged by a lockset dataflow, sequential contracts by SMT"),
  "C12": dict(
    text="Deductive proof over the whole configuration space at once (flags, limits, TLS state, mechanism list symbolic): at the EHLO reply site of handleGreet each keyword is advertised iff its condition from the property statement holds (STARTTLS iff TLSConfig and not TLS; AUTH iff permitted and mechanisms; REQUIRETLS iff TLS and flag; SMTPUTF8/BINARYMIME/DSN/RRVS iff flag; SIZE / SIZE n / LIMITS RCPTMAX=n with the configured values), nothing else is advertised, HELO lists none; honouring: the callback stubs require every option handed to the backend to belong to an enabled extension, and a 504 is written only for a parameter whose extension is disabled.",
    note=COMMON_NOTE + "The capability slice is tracked by a keyword-membership abstraction of slice literals/append/phi inside the generator (exact or fail closed). Assumed: AuthMechanisms stub.",
